@@ -304,6 +304,7 @@ std::string run_case(MakeSender mk, bool prestop, const std::vector<script_ev>& 
   op_t* op = ::new (static_cast<void*>(storage)) op_t(unifex::connect(mk(), root_receiver{counting_token{ext.get_token()}}));
   unifex::start(*op);
   for (auto& ev : script) {
+    log("|");   // batch marker: one batch per script event
     if (ev.what == 'S') {
       if (ext.stop_requested()) log("skip"); else ext.request_stop();
     } else {
